@@ -133,12 +133,21 @@ Names == [zbody |-> N("zbody", "Zbody", "zbody"), answer |-> N("answer", "Answer
                      mGMonth |-> N("mGMonth", "MGMonth", "m_g_month"), mGMonthDay |-> N("mGMonthDay", "MGMonthDay", "m_g_month_day"),
                      mGDay |-> N("mGDay", "MGDay", "m_g_day"), mAnySimple |-> N("mAnySimple", "MAnySimple", "m_any_simple"),
                      TextHolder |-> N("TextHolder", "TextHolder", "text_holder"),
+                     unit |-> N("unit", "Unit", "unit"), unitAttr |-> N("unitAttr", "UnitAttr", "unit_attr"), Unit |-> N("Unit", "Unit", "unit"),
+                     Address |-> N("Address", "Address", "address"), address |-> N("address", "Address", "address"),
+                     address2 |-> N("address2", "Address2", "address_2"),
                      kw_type |-> N("type", "Type", "r#type"),
                      kw_self |-> N("self", "Self_", "self_"),
                      kw_match |-> N("match", "Match", "r#match"),
                      kw_async |-> N("async", "Async", "r#async"),
                      kw_crate |-> N("crate", "Crate", "crate_")]
-NameRec(id) == IF id \in DOMAIN Names THEN Names[id] ELSE N(id, id, id)
+WideIdx(id) == {i \in 1..24 : id = "item" \o <<"A", "B", "C", "D", "E", "F", "G", "H", "I", "J", "K", "L", "M", "N", "O", "P", "Q", "R", "S", "T", "U", "V", "W", "X">>[i]}
+NameRec(id) == IF id \in DOMAIN Names THEN Names[id]
+               ELSE IF WideIdx(id) # {}
+                    THEN LET i == CHOOSE k \in WideIdx(id) : TRUE
+                         IN N(id, "Item" \o <<"A", "B", "C", "D", "E", "F", "G", "H", "I", "J", "K", "L", "M", "N", "O", "P", "Q", "R", "S", "T", "U", "V", "W", "X">>[i],
+                              "item_" \o <<"a", "b", "c", "d", "e", "f", "g", "h", "i", "j", "k", "l", "m", "n", "o", "p", "q", "r", "s", "t", "u", "v", "w", "x">>[i])
+                    ELSE N(id, id, id)
 
 Lit(l, t) == [lit |-> l, text |-> t]
 SLit(t) == [lit |-> "\"" \o t \o "\".to_string()", text |-> t]
@@ -210,6 +219,9 @@ TextMember == [token |-> "mToken", Name |-> "mName", NCName |-> "mNCName", NMTOK
                gYear |-> "mGYear", gYearMonth |-> "mGYearMonth", gMonth |-> "mGMonth", gMonthDay |-> "mGMonthDay", gDay |-> "mGDay",
                anySimpleType |-> "mAnySimple"]
 TextBuiltinMembers == [i \in 1..Len(TextSeq) |-> El(TextMember[TextSeq[i]], B(TextSeq[i]), IF i % 3 = 0 \/ i % 4 = 0 THEN 0 ELSE 1, IF i % 4 = 0 THEN "unb" ELSE "1")]
+UpperL == <<"A", "B", "C", "D", "E", "F", "G", "H", "I", "J", "K", "L", "M", "N", "O", "P", "Q", "R", "S", "T", "U", "V", "W", "X">>
+LowerL == <<"a", "b", "c", "d", "e", "f", "g", "h", "i", "j", "k", "l", "m", "n", "o", "p", "q", "r", "s", "t", "u", "v", "w", "x">>
+WideName == [i \in 1..24 |-> "item" \o UpperL[i]]
 AllBuiltins(min, max) == [i \in 1..Len(BuiltinSeq) |-> El(MemberName[BuiltinSeq[i]], B(BuiltinSeq[i]), min, max)]
 
 NearX == << <<"t", "Unear">>, <<"o", "Ufar">> >>
@@ -311,6 +323,24 @@ TypeCases ==
                         attrs |-> <<>>] >>),
                       Xsd("v1.xsd", "Uv1", << <<"x", "Uv1">> >>, << Cx("OtherType", None, << El("otherValue", B("string"), 1, "1") >>, <<>>) >>),
                       Xsd("v2.xsd", "Uv2", << <<"x", "Uv2">> >>, << Cx("FarType", None, << El("farValue", B("string"), 1, "1") >>, <<>>) >>) >>,
+   \* members whose field names coincide: element and attribute of one name, names that differ in case only, a third member
+   \* whose own name is what the suffix rule would produce, an inherited element against an own attribute; the later
+   \* members are of restricted types, so that C07 has something to find in them
+   name_clash |-> << Xsd("main.xsd", "Unear", NearX,
+                    << Simple("ShortCode", B("string"), << <<"minLen", 2>>, <<"maxLen", 4>> >>),
+                       Simple("LevelType", B("int"), << <<"minInc", 1>>, <<"maxInc", 9>> >>),
+                       Cx("FocusType", None,
+                          << El("unit", B("string"), 1, "1"), El("unitAttr", B("string"), 0, "1"), El("Address", B("string"), 1, "1"),
+                             El("address", T("t", "ShortCode"), 0, "1"), El("address2", B("int"), 0, "1"), El("Unit", T("t", "LevelType"), 0, "unb") >>,
+                          << At("unit", B("string"), "opt"), At("address", B("string"), "opt") >>),
+                       Cx("BaseType", None, << El("code", B("string"), 1, "1"), El("baseItem", B("string"), 0, "1") >>, << At("baseKey", B("string"), "opt") >>),
+                       Cx("LeafType", T("t", "BaseType"), << El("leafItem", T("t", "ShortCode"), 1, "1"), El("baseKey", B("int"), 0, "1") >>, << At("code", B("string"), "opt") >>) >>) >>,
+   \* a derived type with more than 20 members whose base has attributes (order of members, base first)
+   wide_extension |-> << Xsd("main.xsd", "Unear", NearX,
+                    << Cx("BaseType", None, [i \in 1..12 |-> El(WideName[i], B(IF i % 2 = 0 THEN "string" ELSE "int"), IF i % 3 = 0 THEN 0 ELSE 1, "1")],
+                          << At("baseKey", B("string"), "req"), At("tagAttr", B("int"), "opt") >>),
+                       Cx("LeafType", T("t", "BaseType"), [i \in 1..12 |-> El(WideName[12 + i], B(IF i % 2 = 0 THEN "boolean" ELSE "string"), IF i % 4 = 0 THEN 0 ELSE 1, "1")],
+                          << At("leafKey", B("string"), "opt") >>) >>) >>,
    \* element forms: main.xsd leaves elementFormDefault at XSD's default (unqualified) and overrides it on one element;
    \* it extends a type of a qualified file and is used by none; form.xsd is qualified and overrides one element the other way
    unqualified_form |-> << Xsd("main.xsd", "Unear", NearX,
@@ -347,7 +377,7 @@ TypeCases ==
                     << Cx("kw_self", None, << El("kw_type", B("string"), 1, "1"), El("kw_match", B("int"), 0, "1"), El("kw_async", B("string"), 0, "unb"),
                                               El("kw_crate", B("boolean"), 1, "1") >>,
                           << At("kw_self", B("string"), "opt") >>) >>) >>]
-TypeLabels == IF Tier = "quick" THEN {"builtins_req", "builtins_vec", "text_builtins", "positions", "extension_near", "extension_far", "extension_far_user", "two_foreign", "deep_shared", "homonym_default", "prefix_scoped", "unqualified_form", "simple_restricted", "keywords", "three_ns", "sibling_collide"}
+TypeLabels == IF Tier = "quick" THEN {"builtins_req", "builtins_vec", "text_builtins", "positions", "extension_near", "extension_far", "extension_far_user", "two_foreign", "deep_shared", "homonym_default", "prefix_scoped", "unqualified_form", "name_clash", "wide_extension", "simple_restricted", "keywords", "three_ns", "sibling_collide"}
               ELSE DOMAIN TypeCases
 
 \* ---- WSDL shapes
@@ -446,6 +476,27 @@ WsdlCases ==
                    Xsd("far.xsd", "Ufar", << <<"o", "Ufar">> >>,
                        << ElemI("GetFar", << El("farArg", B("string"), 1, "1") >>), ElemI("GetFarResponse", << El("farResult", B("int"), 1, "1") >>),
                           ElemI("SessionHeader", << El("session", B("string"), 1, "1") >>) >>) >>,
+   \* body and header elements of one message in different namespaces, and the response in a namespace the request never uses
+   mixed_ns |-> << Wsdl(<< Imp("Ufar", "far.xsd"), ElemI("GetItem", << El("itemId", B("string"), 1, "1") >>),
+                           ElemI("AuthHeader", << El("token", B("string"), 1, "1") >>) >>, << <<"o", "Ufar">> >>,
+                  Common(<< [n |-> "GetItem", action |-> "act",
+                             input |-> [msg |-> "request", headers |-> << Hdr("request", "auth") >>],
+                             output |-> [msg |-> "response", headers |-> << Hdr("response", "sess") >>]] >>,
+                         << Msg("request", << Part("auth", "tns", "AuthHeader"), Part("bodyPart", "tns", "GetItem") >>),
+                            Msg("response", << Part("answer", "o", "GetItemResponse"), Part("sess", "o", "SessionHeader") >>) >>)),
+                   Xsd("far.xsd", "Ufar", << <<"o", "Ufar">> >>,
+                       << ElemI("GetItemResponse", << El("itemName", B("string"), 1, "1") >>),
+                          ElemI("SessionHeader", << El("session", B("string"), 1, "1") >>) >>) >>,
+   mixed_ns2 |-> << Wsdl(<< Imp("Ufar", "far.xsd"), ElemI("GetItem", << El("itemId", B("string"), 1, "1") >>),
+                            ElemI("GetItemResponse", << El("itemName", B("string"), 1, "1") >>) >>, << <<"o", "Ufar">> >>,
+                  Common(<< [n |-> "GetItem", action |-> "act",
+                             input |-> [msg |-> "request", headers |-> << Hdr("request", "sess") >>],
+                             output |-> [msg |-> "response", headers |-> << Hdr("response", "trace") >>]] >>,
+                         << Msg("request", << Part("bodyPart", "tns", "GetItem"), Part("sess", "o", "SessionHeader") >>),
+                            Msg("response", << Part("answer", "tns", "GetItemResponse"), Part("trace", "o", "TraceHeader") >>) >>)),
+                   Xsd("far.xsd", "Ufar", << <<"o", "Ufar">> >>,
+                       << ElemI("TraceHeader", << El("traceId", B("long"), 1, "1") >>),
+                          ElemI("SessionHeader", << El("session", B("string"), 1, "1") >>) >>) >>,
    headers_many |-> << Wsdl(ReqResp \o Headers, <<>>,
                   Common(<< [n |-> "GetItem", action |-> "act",
                              input |-> [msg |-> "request", headers |-> << Hdr("request", "auth"), Hdr("request", "trace"), Hdr("request", "sess") >>],
@@ -464,12 +515,22 @@ TargetJ(t) == IF t.k = "struct" THEN [k |-> "struct", ns |-> t.ns, xml |-> NameR
 FieldJ(e) == [xml |-> NameRec(e.xml).xml, snake |-> NameRec(e.xml).snake, w |-> e.w, attr |-> e.attr, target |-> TargetJ(e.target), ns |-> e.ns, xsd |-> e.xsd]
 RECURSIVE SetToSeq(_)
 SetToSeq(X) == IF X = {} THEN <<>> ELSE LET x == CHOOSE y \in X : TRUE IN <<x>> \o SetToSeq(X \ {x})
+\* Field names of one struct are pairwise distinct (D33): a member whose snake_case name is taken gets a suffix - `_attr`
+\* as the first try for an attribute, else `_2`, `_3` ... - in member order
+Cand(base, attr, k) == IF k = 1 THEN base ELSE IF k = 2 /\ attr THEN base \o "_attr" ELSE base \o "_" \o ToString(k)
+RECURSIVE FieldNames(_, _, _)
+FieldNames(fs, i, taken) ==
+  IF i > Len(fs) THEN <<>>
+  ELSE LET base == NameRec(fs[i].xml).snake
+           k == CHOOSE n \in 1..(Len(fs) + 2) : Cand(base, fs[i].attr, n) \notin taken /\ \A m \in 1..(n - 1) : Cand(base, fs[i].attr, m) \in taken
+       IN <<Cand(base, fs[i].attr, k)>> \o FieldNames(fs, i + 1, taken \cup {Cand(base, fs[i].attr, k)})
+FieldsJ(fs) == LET nm == FieldNames(fs, 1, {}) IN [i \in 1..Len(fs) |-> [FieldJ(fs[i]) EXCEPT !.snake = nm[i]]]
 StructJ(S, s) == [ns |-> s.ns, xml |-> NameRec(s.n).xml, pascal |-> NameRec(s.n).pascal, kind |-> s.k,
                   facets |-> EffFacets(S, s, 4),
                   valid |-> IF s.k = "simple" THEN ValidText(EffFacets(S, s, 4)) ELSE "?",
                   invalid |-> IF s.k = "simple" THEN InvalidText(EffFacets(S, s, 4)) ELSE "?",
                   invalids |-> IF s.k = "simple" THEN SetToSeq(InvalidTexts(EffFacets(S, s, 4))) ELSE <<>>,
-                  fields |-> IF s.k = "simple" THEN <<>> ELSE LET fs == ExpFields(S, FileNamed(S, s.f), s.it, BodyOf(s)) IN [i \in 1..Len(fs) |-> FieldJ(fs[i])],
+                  fields |-> IF s.k = "simple" THEN <<>> ELSE LET fs == ExpFields(S, FileNamed(S, s.f), s.it, BodyOf(s)) IN FieldsJ(fs),
                   base |-> IF s.k = "simple" THEN TargetJ(TargetOf(S, FileNamed(S, s.f), s.it, s.it.base)) @@ [xsd |-> XsdOf(s.it.base)] ELSE [k |-> "none"]]
 Expect(S) == LET ss == SetToSeq(StructComps(S)) IN [i \in 1..Len(ss) |-> StructJ(S, ss[i])]
 
